@@ -660,7 +660,8 @@ impl SvgElement {
                     strp(&v).is_err()
                         && !(v.contains(VAR_PREFIX)
                             || v.contains(ELREF_ID_PREFIX)
-                            || v.contains(ELREF_PREVIOUS))
+                            || v.contains(ELREF_PREVIOUS)
+                            || v.contains("{{"))
                 })
             })
     }
